@@ -135,6 +135,9 @@ def g_write(seq, cls: str, opts, entry: str = "stream_frames_gen", bindings=()) 
         return frames_to_bytes(gser.flat_stream_to_frames(iter(tuple(stmts)), opts), delimited)
     if entry == "flat_to_frames":
         return frames_to_bytes(gser.flat_stream_to_frames((s for s in stmts), opts), delimited)
+    if entry == "flat_to_frames_tuples":  # plain tuples of terms, not Triple / Quad objects
+        return frames_to_bytes(gser.flat_stream_to_frames((tuple(s) for s in stmts), opts),
+                               delimited)
     if entry == "flat_to_file":
         out = io.BytesIO()
         gser.flat_stream_to_file((s for s in stmts), out, opts)
@@ -293,6 +296,9 @@ def r_write(seq, cls: str, opts, entry: str = "stream_frames_gen", bindings=()) 
         return frames_to_bytes(rser.flat_stream_to_frames(iter(tuple(stmts)), opts), delimited)
     if entry == "flat_to_frames":
         stmts = [T.st_to_rdflib(s) for s in seq]
+        return frames_to_bytes(rser.flat_stream_to_frames((s for s in stmts), opts), delimited)
+    if entry == "flat_to_frames_tuples":  # plain tuples (what Graph.triples() / Dataset.quads() give)
+        stmts = [tuple(T.to_rdflib(t) for t in s) for s in seq]
         return frames_to_bytes(rser.flat_stream_to_frames((s for s in stmts), opts), delimited)
     if entry == "flat_to_file":
         stmts = [T.st_to_rdflib(s) for s in seq]
